@@ -32,7 +32,7 @@ def listing_oid(listing: dict) -> str:
 
 
 class CoWorld:
-    def __init__(self, root, store_cls="local", link="copy", with_state=False):
+    def __init__(self, root, store_cls="local", link="copy", with_state=False, read_only=False):
         from dvc_objects.fs.local import LocalFileSystem
 
         from dvc_data.hashfile.db import HashFileDB
@@ -45,6 +45,8 @@ class CoWorld:
         os.makedirs(os.path.join(root, "ws"))
         self.state = State(root_dir=os.path.join(root, "ws"), tmp_dir=os.path.join(root, "state")) if with_state else None
         cfg = {"type": [link]}
+        if read_only:
+            cfg["read_only"] = True     # a cache handle opened read-only: nothing is added to it, integrity checks still apply
         if self.state is not None:
             cfg["state"] = self.state
         cls = LocalHashFileDB if store_cls == "local" else HashFileDB
